@@ -1,5 +1,7 @@
 """C01 - every built-in operation computes its loop-notation meaning."""
 import collections
+import numpy as np
+from .. import harness
 from ..report import Check
 from ..kernels.base import run_kernel
 from . import _corpus_run
@@ -27,6 +29,39 @@ def add_corpus(chk, res, name, bound):
     return cnt
 
 
+def extreme_values():
+    """'at every position the value obtained by running the elementary operation inside the loops': the exponential family with slices of very different magnitudes - the result of one
+    slice must not depend on the values of another slice (each slice is its own run of the elementary operation; references computed per slice with the standard shift by the slice maximum)"""
+    import einx
+    out = []
+    rows = np.array([[0.0, 1.0, 2.0, -1.0], [1000.0, 1001.0, 999.0, 1000.5], [-1000.0, -1001.0, -999.0, -1000.5], [1e-3, -1e-3, 0.0, 2e-3], [700.0, -700.0, 0.0, 1.0]])
+
+    def lse(v):
+        m = np.max(v)
+        return m + np.log(np.sum(np.exp(v - m)))
+
+    for dt, tol in (("float64", 1e-9), ("float32", 1e-4)):
+        x = rows.astype(dt)
+        refs = {"logsumexp": ("a [b]", np.array([lse(r.astype("float64")) for r in x])),
+                "log_softmax": ("a [b]", np.stack([r.astype("float64") - lse(r.astype("float64")) for r in x])),
+                "softmax": ("a [b]", np.stack([np.exp(r.astype("float64") - lse(r.astype("float64"))) for r in x]))}
+        xt = np.ascontiguousarray(x.T)
+        for op, (desc, want) in refs.items():
+            for be in ("numpy", "numpy.numpylike", "numpy.einsum"):
+                for d, arg, w in ((desc, x, want), ("[b] a", xt, want.T if want.ndim == 2 else want)):
+                    o = harness.call_einx(op, d, [arg.copy()], {}, be)
+                    dd = {"op": op, "description": d, "shapes": [list(arg.shape)], "kwargs": {"dtype": dt}, "backend": be}
+                    if o[0] == "exc" and "OperationNotSupported" in o[1]:
+                        out.append(("unsupported", dd, be, None))
+                    elif o[0] != "ok":
+                        out.append(("exception", dd, be, f"{o[1:]}"[:200]))
+                    else:
+                        got = np.asarray(o[1], dtype="float64")
+                        ok = got.shape == w.shape and np.all(np.isfinite(got) == np.isfinite(w)) and np.allclose(got, w, rtol=tol, atol=tol)
+                        out.append(("ok", dd, be, None) if ok else ("mismatch", dd, be, f"slices of magnitude 0, +-1000 and 700 side by side ({dt}): got {got.tolist()}, per-slice reference {w.tolist()}"[:400]))
+    return out
+
+
 def run(tier, seed):
     chk = Check("C01", tier, seed, "other")
     try:
@@ -36,7 +71,7 @@ def run(tier, seed):
         chk.add_lemmas(tier)
     except ImportError:
         pass
-    res = _corpus_run.run_corpus(seed, tier)
+    res = _corpus_run.run_corpus(seed, tier) + extreme_values()
     add_corpus(chk, res, "public API vs loop-notation interpreter, 3 numpy backends", "templates from the grammar of DESIGN §2.6: <=4 names, nesting depth 1, sizes from pools with equal lengths and 1s")
     chk.trusted += ["loop-notation interpreter (vf/spec/notation.py, written from the property statement and docs, imports no einx)", "numpy as elementary operations"]
     chk.assumptions += ["floating-point results compared up to rel 1e-6", "only numpy backends importable", "values for descriptions beyond the corpus bound are not decided"]
